@@ -302,6 +302,26 @@ func c03World(cs *explore.Case, c *report.Collector, l *report.Local, bound int,
 			e.explore(q)
 		}
 	}
+	// (b0') the same on a path context whose targets/origins were never collected: collection walks
+	// the whole configuration and would itself be "history" (a server before its first index)
+	ncSpec := cs.Spec()
+	for i := range ncSpec.Paths {
+		ncSpec.Paths[i].NoCollect = true
+	}
+	wnc := world.Build(ncSpec)
+	for i, q := range qs {
+		if q.Kind == run.GotoDef || q.Kind == run.FindRefs {
+			continue
+		}
+		after := run.CanonResult(run.Call(wnc, q))
+		pristine := run.CanonResult(run.Call(world.Build(ncSpec), q))
+		l.Count("calls", 2)
+		l.Count("history_transitions", 1)
+		if pristine != after {
+			c.Add(&report.Violation{Clause: "history-dependence", Site: kindClass(q.Kind) + ":after-prior-queries:uncollected", Check: "history", SchemaID: cs.Entry.ID, Files: cs.Files(), Query: report.J(q),
+				Detail: fmt.Sprintf("%s: on a path context without collected targets/origins the result after %d earlier queries differs from the result as first query\n first: %s\n after: %s\nfile:\n%s", q, i, diffWindow(pristine, after), diffWindow(after, pristine), cs.Text)})
+		}
+	}
 	// (b1) every query repeated after the whole history on the same decoder
 	for i, q := range qs {
 		again := run.CanonResult(run.Call(w, q))
